@@ -36,6 +36,7 @@ callers.
 #* "warning_cls_on_decorator_exception".
 
 # ....................{ IMPORTS                            }....................
+from beartype.roar import BeartypeConfParamException
 from beartype.roar._roarwarn import (
     _BeartypeConfReduceDecoratorExceptionToWarningDefault)
 from beartype._conf.confenum import (
@@ -880,11 +881,30 @@ class BeartypeConf(object):
                 warning_cls_on_decorator_exception,
             )
 
+            # Key of these parameters in the configuration cache, pairing these
+            # parameters with their types. Doing so prevents parameters that
+            # compare equal but are of differing types (e.g., "True", "1", and
+            # "1.0") from colliding with one another and thus circumventing
+            # the validation performed below.
+            conf_key = (conf_args, tuple(map(type, conf_args)))
+
+            # Configuration previously instantiated with these parameters if
+            # any *OR* "None" otherwise.
+            try:
+                conf = _beartype_conf_args_to_conf.get(conf_key)
+            # If one or more of these parameters are unhashable, these
+            # parameters are invalid. Raise the expected exception.
+            except TypeError as exception:
+                raise BeartypeConfParamException(
+                    f'Beartype configuration parameters {repr(conf_args)} '
+                    f'unhashable.'
+                ) from exception
+
             # If this method has already instantiated a configuration with these
             # parameters, return that configuration for consistency and
             # efficiency.
-            if conf_args in _beartype_conf_args_to_conf:
-                return _beartype_conf_args_to_conf[conf_args]
+            if conf is not None:
+                return conf
             # Else, this method has *NOT* yet instantiated a configuration with
             # these parameters. In this case, continue to do so and then cache
             # that configuration.
@@ -925,6 +945,24 @@ class BeartypeConf(object):
             # Sanify all passed parameters *AFTER* validating these parameters.
             sanify_conf_kwargs(conf_kwargs)
 
+            # Efficiently hashable tuple of these parameters *AFTER* defaulting
+            # and sanifying these parameters above (in the same order as the
+            # "conf_args" tuple defined above) and the corresponding key of
+            # these parameters in the configuration cache. Equal configurations
+            # are those whose effective parameters are equal, regardless of
+            # whether those parameters were explicitly passed or defaulted.
+            conf_args = tuple(conf_kwargs.values())
+            conf_key_new = (conf_args, tuple(map(type, conf_args)))
+
+            # If this method has already instantiated a configuration with these
+            # effective parameters (e.g., due to the caller having passed the
+            # "kwargs" dictionary of that configuration), alias the passed
+            # parameters to that configuration and return that configuration.
+            conf = _beartype_conf_args_to_conf.get(conf_key_new)
+            if conf is not None:
+                _beartype_conf_args_to_conf[conf_key] = conf
+                return conf
+
             # ..................{ INSTANTIATE                }..................
             # Instantiate a new configuration of this type.
             self = super().__new__(cls)
@@ -961,7 +999,8 @@ class BeartypeConf(object):
 
             # Cache this configuration with all relevant dictionary singletons
             # *BEFORE* possibly modifying the values of passed parameters below.
-            _beartype_conf_args_to_conf[conf_args] = self
+            _beartype_conf_args_to_conf[conf_key] = self
+            _beartype_conf_args_to_conf[conf_key_new] = self
 
             # ..................{ CLASSIFY                   }..................
             # Classify all passed parameters that have now been possibly
